@@ -225,6 +225,7 @@ type World struct {
 	// Predicted by the harness from what it pushed / what the oracle forwarded, not read from the manager.
 	Created     map[int64]int
 	live        map[int64]bool // channels expected to have a worker (loaded at the start, or met)
+	removing    map[int64]int  // CHANNEL_PRIVATE answers served whose channel the main loop has not forgotten yet
 	subscribing map[int64]int  // new workers whose first difference will forward updates: answers served before
 	KnownUsers  map[int64]bool // users (Telegram ids) whose access hash the client knows
 	// Private: channels the account cannot access right now (their difference answers CHANNEL_PRIVATE).
@@ -261,7 +262,7 @@ type World struct {
 func NewWorld(log []Entry, p0, q0 int, c0 map[int64]int) *World {
 	return &World{Log: log, P0: p0, Q0: q0, C0: c0, ChanTooLong: map[int64]bool{}, Extra: map[string][]int{}, FailNext: map[string]bool{}, inDiff: map[int64]bool{},
 		lastFinal: map[int64]bool{}, genuineTL: map[int64]int{},
-		Fresh: map[int64]bool{}, Late: map[int64]bool{}, Known: map[int64]bool{}, stored: map[int64]bool{}, Created: map[int64]int{}, Started: map[int64]bool{}, live: map[int64]bool{}, subscribing: map[int64]int{}, MetVia: map[int64]string{}, KnownUsers: map[int64]bool{}, Private: map[int64]bool{}, Removed: map[int64]bool{}}
+		Fresh: map[int64]bool{}, Late: map[int64]bool{}, Known: map[int64]bool{}, stored: map[int64]bool{}, Created: map[int64]int{}, Started: map[int64]bool{}, live: map[int64]bool{}, subscribing: map[int64]int{}, removing: map[int64]int{}, MetVia: map[int64]string{}, KnownUsers: map[int64]bool{}, Private: map[int64]bool{}, Removed: map[int64]bool{}}
 }
 
 // hashUnknown: nobody can tell the client the channel's access hash right now.
@@ -309,6 +310,26 @@ func (w *World) removed(c int64) bool {
 	w.mu.Lock()
 	defer w.mu.Unlock()
 	return w.Removed[c]
+}
+
+// forgotten: the main loop has removed the channel from its table (seen through the manager's logger).
+func (w *World) forgotten(c int64) {
+	w.mu.Lock()
+	if w.removing[c] > 0 {
+		w.removing[c]--
+	}
+	w.mu.Unlock()
+}
+
+// removalsOutstanding: channels whose worker was told CHANNEL_PRIVATE and that the main loop still tracks.
+func (w *World) removalsOutstanding() int {
+	w.mu.Lock()
+	defer w.mu.Unlock()
+	n := 0
+	for _, k := range w.removing {
+		n += k
+	}
+	return n
 }
 
 // LiveChannels: the channels the harness expects to have a worker (ascending).
@@ -471,6 +492,7 @@ func (w *World) channelDifference(c int64, pts int) tg.UpdatesChannelDifferenceC
 	if w.Private[c] {
 		// CHANNEL_PRIVATE: the worker reports it, asks the main loop to forget the channel and stops
 		w.Served = append(w.Served, Served{Seq: seq, Kind: "private"})
+		w.removing[c]++ // until the main loop says it has forgotten the channel
 		delete(w.live, c)
 		delete(w.Started, c)
 		w.Removed[c] = true
